@@ -3,7 +3,7 @@ import re
 
 from framework import AnchorLost
 from lib_facts import callee_matches, fn_name
-from lib_flow import strip_refs, expr_calls, expr_str, variant_facts, blocks_with, region_entries
+from lib_flow import strip_refs, expr_calls, expr_str, variant_facts, blocks_with, region_entries, first_entries
 from roles import (roles, direct_sites, sites, callee_body, RE_ENQUEUE, RE_NOTIFY, RE_DW_REGISTER, RE_CTX_WAKER,
                    RE_WAKE, RE_FROM_WAKER, RE_LOCK, RE_FUTURE_POLL, RE_STREAM_POLL_NEXT, reaches)
 
@@ -451,7 +451,7 @@ def r1_6(ctx, R):
                 # place_str of the inner option: (((_4 as Ready).0 as Some).0.1 -> discriminant place string
                 inner = "((%s as Ready).0 as Some).0.1" % dest
                 some_item = blocks_with(vf, [(dest, "Ready"), ("(%s as Ready).0" % dest, "Some"), (inner, "Some")])
-                ents = region_entries(b, some_item)
+                ents = first_entries(b, fl, dbb, some_item)
                 idx_expr_want = ("proj", ("call", fn_name(dfn),) , ())
                 marks = []
                 for mbb, mt, mfn in R.calls_to_body(b, mark):
